@@ -1,0 +1,434 @@
+//go:build verif
+
+// Contracts for the govc deductive verifier (see /verif/DESIGN.md). Comment-only file: with the
+// build tag off it is not part of the package; with the tag on it adds no code.
+
+package ggql
+
+//@ -- ------------------------------------------------------------------ helpers
+//@ func IsNil
+//@   abstract reads the interface header through unsafe; assumed: true exactly for nil interfaces and nil pointer-shaped values
+//@   ensures v == nil ==> res
+//@   ensures !ptrlike(v) && v != nil ==> !res
+//@   ensures ptrlike(v) ==> (res <==> ptrval(v) == 0)
+//@   assigns nothing
+
+//@ func newCoerceErr
+//@   abstract formats a message with fmt.Errorf
+//@   ensures res != nil && !is(res, *Error) && !is(res, Errors)
+//@   assigns fresh
+
+//@ -- ------------------------------------------------------------------ pure accessors
+//@ interface Type.Name
+//@   pure
+//@ interface Selection.Directives
+//@   pure
+//@ interface Selection.Line
+//@   pure
+//@ interface Selection.Column
+//@   pure
+
+//@ -- ------------------------------------------------------------------ C09 @skip / @include
+//@ spec skipCond(v interface{}, vars map[string]interface{}) bool = ite(is(v, bool), as(v, bool), ite(is(v, Var), ite(is(vars[as(v, Var)], bool), as(vars[as(v, Var)], bool), true), false))
+//@ spec inclCond(v interface{}, vars map[string]interface{}) bool = ite(is(v, bool), !as(v, bool), ite(is(v, Var), ite(is(vars[as(v, Var)], bool), !as(vars[as(v, Var)], bool), true), false))
+//@ spec skipOne(du *DirectiveUse, vars map[string]interface{}) bool = (du.Directive.Name() == "skip" && du.Args["if"] != nil && skipCond(du.Args["if"].Value, vars)) || (du.Directive.Name() == "include" && du.Args["if"] != nil && inclCond(du.Args["if"].Value, vars))
+//@ spec skippedUpTo(dus []*DirectiveUse, vars map[string]interface{}, k int) bool reads SH_Int, H_DirectiveUse.Directive, H_DirectiveUse.Args, MH_Str_Int, MD_Str_Int, H_ArgValue.Value, MH_Str_Iface, MD_Str_Iface
+//@ axiom skippedUnfold(dus []*DirectiveUse, vars map[string]interface{}, k int): !skippedUpTo(dus, vars, 0) && (k >= 0 ==> (skippedUpTo(dus, vars, k+1) <==> (skippedUpTo(dus, vars, k) || skipOne(dus[k], vars))))
+
+//@ func (*Root).skipSel
+//@   props C09
+//@   check panic {C03}
+//@   requires sel != nil
+//@   requires forall i int :: 0 <= i && i < len(sel.Directives()) ==> sel.Directives()[i] != nil && sel.Directives()[i].Directive != nil
+//@   ensures[formula] skip <==> skippedUpTo(sel.Directives(), vars, len(sel.Directives()))
+//@   loop 0: invariant 0 <= rangeindex+1 && rangeindex+1 <= len(sel.Directives())
+//@           invariant skip <==> skippedUpTo(sel.Directives(), vars, rangeindex+1)
+//@           decreases len(sel.Directives()) - rangeindex
+//@           use skippedUnfold(sel.Directives(), vars, rangeindex+1)
+
+//@ -- BEGIN generated scalar contracts (gen_scalars.py)
+//@ func (*intScalar).CoerceIn
+//@   props C04
+//@   check panic {C03}
+//@   requires recv != nil
+//@   ensures[nil] v == nil ==> res == nil && err == nil
+//@   ensures[int] is(v, int) && err == nil ==> is(res, int32) && num(res) == num(v)
+//@   ensures[int8] is(v, int8) && err == nil ==> is(res, int32) && num(res) == num(v)
+//@   ensures[int16] is(v, int16) && err == nil ==> is(res, int32) && num(res) == num(v)
+//@   ensures[int32] is(v, int32) && err == nil ==> is(res, int32) && num(res) == num(v)
+//@   ensures[int64] is(v, int64) && err == nil ==> is(res, int32) && num(res) == num(v)
+//@   ensures[uint] is(v, uint) && err == nil ==> is(res, int32) && num(res) == num(v)
+//@   ensures[uint8] is(v, uint8) && err == nil ==> is(res, int32) && num(res) == num(v)
+//@   ensures[uint16] is(v, uint16) && err == nil ==> is(res, int32) && num(res) == num(v)
+//@   ensures[uint32] is(v, uint32) && err == nil ==> is(res, int32) && num(res) == num(v)
+//@   ensures[uint64] is(v, uint64) && err == nil ==> is(res, int32) && num(res) == num(v)
+//@   ensures[float32] is(v, float32) && err == nil ==> is(res, int32) && f32(as(res, int32)) == as(v, float32)
+//@   ensures[float32-range] is(v, float32) && err == nil ==> is(res, int32) && f32(as(res, int32)) == trunc(as(v, float32))
+//@   ensures[float64] is(v, float64) && err == nil ==> is(res, int32) && f64(as(res, int32)) == as(v, float64)
+//@   ensures[float64-range] is(v, float64) && err == nil ==> is(res, int32) && f64(as(res, int32)) == trunc(as(v, float64))
+//@   ensures[bool] is(v, bool) && err == nil ==> is(res, int32)
+//@   ensures[string] is(v, string) && err == nil ==> is(res, int32)
+//@   ensures[Symbol] is(v, Symbol) && err == nil ==> is(res, int32)
+//@   ensures[time_Time] is(v, time.Time) && err == nil ==> is(res, int32)
+//@   ensures[conforms] err == nil ==> res == nil || (is(res, int32))
+
+//@ func (*intScalar).CoerceOut
+//@   props C05
+//@   check panic {C03}
+//@   requires recv != nil
+//@   ensures[nil] v == nil ==> res == nil && err == nil
+//@   ensures[int] is(v, int) && err == nil ==> is(res, int32) && num(res) == num(v)
+//@   ensures[int8] is(v, int8) && err == nil ==> is(res, int32) && num(res) == num(v)
+//@   ensures[int16] is(v, int16) && err == nil ==> is(res, int32) && num(res) == num(v)
+//@   ensures[int32] is(v, int32) && err == nil ==> is(res, int32) && num(res) == num(v)
+//@   ensures[int64] is(v, int64) && err == nil ==> is(res, int32) && num(res) == num(v)
+//@   ensures[uint] is(v, uint) && err == nil ==> is(res, int32) && num(res) == num(v)
+//@   ensures[uint8] is(v, uint8) && err == nil ==> is(res, int32) && num(res) == num(v)
+//@   ensures[uint16] is(v, uint16) && err == nil ==> is(res, int32) && num(res) == num(v)
+//@   ensures[uint32] is(v, uint32) && err == nil ==> is(res, int32) && num(res) == num(v)
+//@   ensures[uint64] is(v, uint64) && err == nil ==> is(res, int32) && num(res) == num(v)
+//@   ensures[float32] is(v, float32) && err == nil ==> is(res, int32) && f32(as(res, int32)) == as(v, float32)
+//@   ensures[float32-range] is(v, float32) && err == nil ==> is(res, int32) && f32(as(res, int32)) == trunc(as(v, float32))
+//@   ensures[float64] is(v, float64) && err == nil ==> is(res, int32) && f64(as(res, int32)) == as(v, float64)
+//@   ensures[float64-range] is(v, float64) && err == nil ==> is(res, int32) && f64(as(res, int32)) == trunc(as(v, float64))
+//@   ensures[bool] is(v, bool) && err == nil ==> is(res, int32)
+//@   ensures[string] is(v, string) && err == nil ==> is(res, int32)
+//@   ensures[Symbol] is(v, Symbol) && err == nil ==> is(res, int32)
+//@   ensures[time_Time] is(v, time.Time) && err == nil ==> is(res, int32)
+//@   ensures[conforms] err == nil ==> res == nil || (is(res, int32))
+//@   ensures[err-null] err != nil ==> res == nil
+
+//@ func (*int64Scalar).CoerceIn
+//@   props C04
+//@   check panic {C03}
+//@   requires recv != nil
+//@   ensures[nil] v == nil ==> res == nil && err == nil
+//@   ensures[int] is(v, int) && err == nil ==> is(res, int64) && num(res) == num(v)
+//@   ensures[int8] is(v, int8) && err == nil ==> is(res, int64) && num(res) == num(v)
+//@   ensures[int16] is(v, int16) && err == nil ==> is(res, int64) && num(res) == num(v)
+//@   ensures[int32] is(v, int32) && err == nil ==> is(res, int64) && num(res) == num(v)
+//@   ensures[int64] is(v, int64) && err == nil ==> is(res, int64) && num(res) == num(v)
+//@   ensures[uint] is(v, uint) && err == nil ==> is(res, int64) && num(res) == num(v)
+//@   ensures[uint8] is(v, uint8) && err == nil ==> is(res, int64) && num(res) == num(v)
+//@   ensures[uint16] is(v, uint16) && err == nil ==> is(res, int64) && num(res) == num(v)
+//@   ensures[uint32] is(v, uint32) && err == nil ==> is(res, int64) && num(res) == num(v)
+//@   ensures[uint64] is(v, uint64) && err == nil ==> is(res, int64) && num(res) == num(v)
+//@   ensures[float32] is(v, float32) && err == nil ==> is(res, int64) && f32(as(res, int64)) == as(v, float32)
+//@   ensures[float32-range] is(v, float32) && err == nil ==> is(res, int64) && f32(as(res, int64)) == trunc(as(v, float32))
+//@   ensures[float64] is(v, float64) && err == nil ==> is(res, int64) && f64(as(res, int64)) == as(v, float64)
+//@   ensures[float64-range] is(v, float64) && err == nil ==> is(res, int64) && f64(as(res, int64)) == trunc(as(v, float64))
+//@   ensures[bool] is(v, bool) && err == nil ==> is(res, int64)
+//@   ensures[string] is(v, string) && err == nil ==> is(res, int64)
+//@   ensures[Symbol] is(v, Symbol) && err == nil ==> is(res, int64)
+//@   ensures[time_Time] is(v, time.Time) && err == nil ==> is(res, int64)
+//@   ensures[conforms] err == nil ==> res == nil || (is(res, int64))
+
+//@ func (*int64Scalar).CoerceOut
+//@   props C05
+//@   check panic {C03}
+//@   requires recv != nil
+//@   ensures[nil] v == nil ==> res == nil && err == nil
+//@   ensures[int] is(v, int) && err == nil ==> is(res, int64) && num(res) == num(v)
+//@   ensures[int8] is(v, int8) && err == nil ==> is(res, int64) && num(res) == num(v)
+//@   ensures[int16] is(v, int16) && err == nil ==> is(res, int64) && num(res) == num(v)
+//@   ensures[int32] is(v, int32) && err == nil ==> is(res, int64) && num(res) == num(v)
+//@   ensures[int64] is(v, int64) && err == nil ==> is(res, int64) && num(res) == num(v)
+//@   ensures[uint] is(v, uint) && err == nil ==> is(res, int64) && num(res) == num(v)
+//@   ensures[uint8] is(v, uint8) && err == nil ==> is(res, int64) && num(res) == num(v)
+//@   ensures[uint16] is(v, uint16) && err == nil ==> is(res, int64) && num(res) == num(v)
+//@   ensures[uint32] is(v, uint32) && err == nil ==> is(res, int64) && num(res) == num(v)
+//@   ensures[uint64] is(v, uint64) && err == nil ==> is(res, int64) && num(res) == num(v)
+//@   ensures[float32] is(v, float32) && err == nil ==> is(res, int64) && f32(as(res, int64)) == as(v, float32)
+//@   ensures[float32-range] is(v, float32) && err == nil ==> is(res, int64) && f32(as(res, int64)) == trunc(as(v, float32))
+//@   ensures[float64] is(v, float64) && err == nil ==> is(res, int64) && f64(as(res, int64)) == as(v, float64)
+//@   ensures[float64-range] is(v, float64) && err == nil ==> is(res, int64) && f64(as(res, int64)) == trunc(as(v, float64))
+//@   ensures[bool] is(v, bool) && err == nil ==> is(res, int64)
+//@   ensures[string] is(v, string) && err == nil ==> is(res, int64)
+//@   ensures[Symbol] is(v, Symbol) && err == nil ==> is(res, int64)
+//@   ensures[time_Time] is(v, time.Time) && err == nil ==> is(res, int64)
+//@   ensures[conforms] err == nil ==> res == nil || (is(res, int64))
+//@   ensures[err-null] err != nil ==> res == nil
+
+//@ func (*floatScalar).CoerceIn
+//@   props C04
+//@   check panic {C03}
+//@   requires recv != nil
+//@   ensures[nil] v == nil ==> res == nil && err == nil
+//@   ensures[int] is(v, int) && err == nil ==> is(res, float32) && isfinite(as(res, float32)) && as(res, float32) == f32(as(v, int))
+//@   ensures[int8] is(v, int8) && err == nil ==> is(res, float32) && isfinite(as(res, float32)) && as(res, float32) == f32(as(v, int8))
+//@   ensures[int16] is(v, int16) && err == nil ==> is(res, float32) && isfinite(as(res, float32)) && as(res, float32) == f32(as(v, int16))
+//@   ensures[int32] is(v, int32) && err == nil ==> is(res, float32) && isfinite(as(res, float32)) && as(res, float32) == f32(as(v, int32))
+//@   ensures[int64] is(v, int64) && err == nil ==> is(res, float32) && isfinite(as(res, float32)) && as(res, float32) == f32(as(v, int64))
+//@   ensures[uint] is(v, uint) && err == nil ==> is(res, float32) && isfinite(as(res, float32)) && as(res, float32) == f32(as(v, uint))
+//@   ensures[uint8] is(v, uint8) && err == nil ==> is(res, float32) && isfinite(as(res, float32)) && as(res, float32) == f32(as(v, uint8))
+//@   ensures[uint16] is(v, uint16) && err == nil ==> is(res, float32) && isfinite(as(res, float32)) && as(res, float32) == f32(as(v, uint16))
+//@   ensures[uint32] is(v, uint32) && err == nil ==> is(res, float32) && isfinite(as(res, float32)) && as(res, float32) == f32(as(v, uint32))
+//@   ensures[uint64] is(v, uint64) && err == nil ==> is(res, float32) && isfinite(as(res, float32)) && as(res, float32) == f32(as(v, uint64))
+//@   ensures[float32] is(v, float32) && err == nil ==> is(res, float32) && isfinite(as(res, float32)) && as(res, float32) == f32(as(v, float32))
+//@   ensures[float64] is(v, float64) && err == nil ==> is(res, float32) && isfinite(as(res, float32)) && as(res, float32) == f32(as(v, float64))
+//@   ensures[bool] is(v, bool) && err == nil ==> is(res, float32) && isfinite(as(res, float32))
+//@   ensures[string] is(v, string) && err == nil ==> is(res, float32) && isfinite(as(res, float32))
+//@   ensures[Symbol] is(v, Symbol) && err == nil ==> is(res, float32) && isfinite(as(res, float32))
+//@   ensures[time_Time] is(v, time.Time) && err == nil ==> is(res, float32) && isfinite(as(res, float32))
+//@   ensures[conforms] err == nil ==> res == nil || (is(res, float32) && isfinite(as(res, float32)))
+
+//@ func (*floatScalar).CoerceOut
+//@   props C05
+//@   check panic {C03}
+//@   requires recv != nil
+//@   ensures[nil] v == nil ==> res == nil && err == nil
+//@   ensures[int] is(v, int) && err == nil ==> is(res, float32) && isfinite(as(res, float32)) && as(res, float32) == f32(as(v, int))
+//@   ensures[int8] is(v, int8) && err == nil ==> is(res, float32) && isfinite(as(res, float32)) && as(res, float32) == f32(as(v, int8))
+//@   ensures[int16] is(v, int16) && err == nil ==> is(res, float32) && isfinite(as(res, float32)) && as(res, float32) == f32(as(v, int16))
+//@   ensures[int32] is(v, int32) && err == nil ==> is(res, float32) && isfinite(as(res, float32)) && as(res, float32) == f32(as(v, int32))
+//@   ensures[int64] is(v, int64) && err == nil ==> is(res, float32) && isfinite(as(res, float32)) && as(res, float32) == f32(as(v, int64))
+//@   ensures[uint] is(v, uint) && err == nil ==> is(res, float32) && isfinite(as(res, float32)) && as(res, float32) == f32(as(v, uint))
+//@   ensures[uint8] is(v, uint8) && err == nil ==> is(res, float32) && isfinite(as(res, float32)) && as(res, float32) == f32(as(v, uint8))
+//@   ensures[uint16] is(v, uint16) && err == nil ==> is(res, float32) && isfinite(as(res, float32)) && as(res, float32) == f32(as(v, uint16))
+//@   ensures[uint32] is(v, uint32) && err == nil ==> is(res, float32) && isfinite(as(res, float32)) && as(res, float32) == f32(as(v, uint32))
+//@   ensures[uint64] is(v, uint64) && err == nil ==> is(res, float32) && isfinite(as(res, float32)) && as(res, float32) == f32(as(v, uint64))
+//@   ensures[float32] is(v, float32) && err == nil ==> is(res, float32) && isfinite(as(res, float32)) && as(res, float32) == f32(as(v, float32))
+//@   ensures[float64] is(v, float64) && err == nil ==> is(res, float32) && isfinite(as(res, float32)) && as(res, float32) == f32(as(v, float64))
+//@   ensures[bool] is(v, bool) && err == nil ==> is(res, float32) && isfinite(as(res, float32))
+//@   ensures[string] is(v, string) && err == nil ==> is(res, float32) && isfinite(as(res, float32))
+//@   ensures[Symbol] is(v, Symbol) && err == nil ==> is(res, float32) && isfinite(as(res, float32))
+//@   ensures[time_Time] is(v, time.Time) && err == nil ==> is(res, float32) && isfinite(as(res, float32))
+//@   ensures[conforms] err == nil ==> res == nil || (is(res, float32) && isfinite(as(res, float32)))
+//@   ensures[err-null] err != nil ==> res == nil
+
+//@ func (*float64Scalar).CoerceIn
+//@   props C04
+//@   check panic {C03}
+//@   requires recv != nil
+//@   ensures[nil] v == nil ==> res == nil && err == nil
+//@   ensures[int] is(v, int) && err == nil ==> is(res, float64) && isfinite(as(res, float64)) && as(res, float64) == f64(as(v, int))
+//@   ensures[int8] is(v, int8) && err == nil ==> is(res, float64) && isfinite(as(res, float64)) && as(res, float64) == f64(as(v, int8))
+//@   ensures[int16] is(v, int16) && err == nil ==> is(res, float64) && isfinite(as(res, float64)) && as(res, float64) == f64(as(v, int16))
+//@   ensures[int32] is(v, int32) && err == nil ==> is(res, float64) && isfinite(as(res, float64)) && as(res, float64) == f64(as(v, int32))
+//@   ensures[int64] is(v, int64) && err == nil ==> is(res, float64) && isfinite(as(res, float64)) && as(res, float64) == f64(as(v, int64))
+//@   ensures[uint] is(v, uint) && err == nil ==> is(res, float64) && isfinite(as(res, float64)) && as(res, float64) == f64(as(v, uint))
+//@   ensures[uint8] is(v, uint8) && err == nil ==> is(res, float64) && isfinite(as(res, float64)) && as(res, float64) == f64(as(v, uint8))
+//@   ensures[uint16] is(v, uint16) && err == nil ==> is(res, float64) && isfinite(as(res, float64)) && as(res, float64) == f64(as(v, uint16))
+//@   ensures[uint32] is(v, uint32) && err == nil ==> is(res, float64) && isfinite(as(res, float64)) && as(res, float64) == f64(as(v, uint32))
+//@   ensures[uint64] is(v, uint64) && err == nil ==> is(res, float64) && isfinite(as(res, float64)) && as(res, float64) == f64(as(v, uint64))
+//@   ensures[float32] is(v, float32) && err == nil ==> is(res, float64) && isfinite(as(res, float64)) && as(res, float64) == f64(as(v, float32))
+//@   ensures[float64] is(v, float64) && err == nil ==> is(res, float64) && isfinite(as(res, float64)) && as(res, float64) == f64(as(v, float64))
+//@   ensures[bool] is(v, bool) && err == nil ==> is(res, float64) && isfinite(as(res, float64))
+//@   ensures[string] is(v, string) && err == nil ==> is(res, float64) && isfinite(as(res, float64))
+//@   ensures[Symbol] is(v, Symbol) && err == nil ==> is(res, float64) && isfinite(as(res, float64))
+//@   ensures[time_Time] is(v, time.Time) && err == nil ==> is(res, float64) && isfinite(as(res, float64))
+//@   ensures[conforms] err == nil ==> res == nil || (is(res, float64) && isfinite(as(res, float64)))
+
+//@ func (*float64Scalar).CoerceOut
+//@   props C05
+//@   check panic {C03}
+//@   requires recv != nil
+//@   ensures[nil] v == nil ==> res == nil && err == nil
+//@   ensures[int] is(v, int) && err == nil ==> is(res, float64) && isfinite(as(res, float64)) && as(res, float64) == f64(as(v, int))
+//@   ensures[int8] is(v, int8) && err == nil ==> is(res, float64) && isfinite(as(res, float64)) && as(res, float64) == f64(as(v, int8))
+//@   ensures[int16] is(v, int16) && err == nil ==> is(res, float64) && isfinite(as(res, float64)) && as(res, float64) == f64(as(v, int16))
+//@   ensures[int32] is(v, int32) && err == nil ==> is(res, float64) && isfinite(as(res, float64)) && as(res, float64) == f64(as(v, int32))
+//@   ensures[int64] is(v, int64) && err == nil ==> is(res, float64) && isfinite(as(res, float64)) && as(res, float64) == f64(as(v, int64))
+//@   ensures[uint] is(v, uint) && err == nil ==> is(res, float64) && isfinite(as(res, float64)) && as(res, float64) == f64(as(v, uint))
+//@   ensures[uint8] is(v, uint8) && err == nil ==> is(res, float64) && isfinite(as(res, float64)) && as(res, float64) == f64(as(v, uint8))
+//@   ensures[uint16] is(v, uint16) && err == nil ==> is(res, float64) && isfinite(as(res, float64)) && as(res, float64) == f64(as(v, uint16))
+//@   ensures[uint32] is(v, uint32) && err == nil ==> is(res, float64) && isfinite(as(res, float64)) && as(res, float64) == f64(as(v, uint32))
+//@   ensures[uint64] is(v, uint64) && err == nil ==> is(res, float64) && isfinite(as(res, float64)) && as(res, float64) == f64(as(v, uint64))
+//@   ensures[float32] is(v, float32) && err == nil ==> is(res, float64) && isfinite(as(res, float64)) && as(res, float64) == f64(as(v, float32))
+//@   ensures[float64] is(v, float64) && err == nil ==> is(res, float64) && isfinite(as(res, float64)) && as(res, float64) == f64(as(v, float64))
+//@   ensures[bool] is(v, bool) && err == nil ==> is(res, float64) && isfinite(as(res, float64))
+//@   ensures[string] is(v, string) && err == nil ==> is(res, float64) && isfinite(as(res, float64))
+//@   ensures[Symbol] is(v, Symbol) && err == nil ==> is(res, float64) && isfinite(as(res, float64))
+//@   ensures[time_Time] is(v, time.Time) && err == nil ==> is(res, float64) && isfinite(as(res, float64))
+//@   ensures[conforms] err == nil ==> res == nil || (is(res, float64) && isfinite(as(res, float64)))
+//@   ensures[err-null] err != nil ==> res == nil
+
+//@ func (*stringScalar).CoerceIn
+//@   props C04
+//@   check panic {C03}
+//@   requires recv != nil
+//@   ensures[nil] v == nil ==> res == nil && err == nil
+//@   ensures[int] is(v, int) && err == nil ==> is(res, string)
+//@   ensures[int8] is(v, int8) && err == nil ==> is(res, string)
+//@   ensures[int16] is(v, int16) && err == nil ==> is(res, string)
+//@   ensures[int32] is(v, int32) && err == nil ==> is(res, string)
+//@   ensures[int64] is(v, int64) && err == nil ==> is(res, string)
+//@   ensures[uint] is(v, uint) && err == nil ==> is(res, string)
+//@   ensures[uint8] is(v, uint8) && err == nil ==> is(res, string)
+//@   ensures[uint16] is(v, uint16) && err == nil ==> is(res, string)
+//@   ensures[uint32] is(v, uint32) && err == nil ==> is(res, string)
+//@   ensures[uint64] is(v, uint64) && err == nil ==> is(res, string)
+//@   ensures[float32] is(v, float32) && err == nil ==> is(res, string)
+//@   ensures[float64] is(v, float64) && err == nil ==> is(res, string)
+//@   ensures[bool] is(v, bool) && err == nil ==> is(res, string)
+//@   ensures[string] is(v, string) && err == nil ==> is(res, string) && as(res, string) == as(v, string)
+//@   ensures[Symbol] is(v, Symbol) && err == nil ==> is(res, string)
+//@   ensures[time_Time] is(v, time.Time) && err == nil ==> is(res, string)
+//@   ensures[conforms] err == nil ==> res == nil || (is(res, string))
+
+//@ func (*stringScalar).CoerceOut
+//@   props C05
+//@   check panic {C03}
+//@   requires recv != nil
+//@   ensures[nil] v == nil ==> res == nil && err == nil
+//@   ensures[int] is(v, int) && err == nil ==> is(res, string)
+//@   ensures[int8] is(v, int8) && err == nil ==> is(res, string)
+//@   ensures[int16] is(v, int16) && err == nil ==> is(res, string)
+//@   ensures[int32] is(v, int32) && err == nil ==> is(res, string)
+//@   ensures[int64] is(v, int64) && err == nil ==> is(res, string)
+//@   ensures[uint] is(v, uint) && err == nil ==> is(res, string)
+//@   ensures[uint8] is(v, uint8) && err == nil ==> is(res, string)
+//@   ensures[uint16] is(v, uint16) && err == nil ==> is(res, string)
+//@   ensures[uint32] is(v, uint32) && err == nil ==> is(res, string)
+//@   ensures[uint64] is(v, uint64) && err == nil ==> is(res, string)
+//@   ensures[float32] is(v, float32) && err == nil ==> is(res, string)
+//@   ensures[float64] is(v, float64) && err == nil ==> is(res, string)
+//@   ensures[bool] is(v, bool) && err == nil ==> is(res, string)
+//@   ensures[string] is(v, string) && err == nil ==> is(res, string) && as(res, string) == as(v, string)
+//@   ensures[Symbol] is(v, Symbol) && err == nil ==> is(res, string)
+//@   ensures[time_Time] is(v, time.Time) && err == nil ==> is(res, string)
+//@   ensures[conforms] err == nil ==> res == nil || (is(res, string))
+//@   ensures[err-null] err != nil ==> res == nil
+
+//@ func (*idScalar).CoerceIn
+//@   props C04
+//@   check panic {C03}
+//@   requires recv != nil
+//@   ensures[nil] v == nil ==> res == nil && err == nil
+//@   ensures[int] is(v, int) && err == nil ==> is(res, string)
+//@   ensures[int8] is(v, int8) && err == nil ==> is(res, string)
+//@   ensures[int16] is(v, int16) && err == nil ==> is(res, string)
+//@   ensures[int32] is(v, int32) && err == nil ==> is(res, string)
+//@   ensures[int64] is(v, int64) && err == nil ==> is(res, string)
+//@   ensures[uint] is(v, uint) && err == nil ==> is(res, string)
+//@   ensures[uint8] is(v, uint8) && err == nil ==> is(res, string)
+//@   ensures[uint16] is(v, uint16) && err == nil ==> is(res, string)
+//@   ensures[uint32] is(v, uint32) && err == nil ==> is(res, string)
+//@   ensures[uint64] is(v, uint64) && err == nil ==> is(res, string)
+//@   ensures[float32] is(v, float32) && err == nil ==> is(res, string)
+//@   ensures[float64] is(v, float64) && err == nil ==> is(res, string)
+//@   ensures[bool] is(v, bool) && err == nil ==> is(res, string)
+//@   ensures[string] is(v, string) && err == nil ==> is(res, string) && as(res, string) == as(v, string)
+//@   ensures[Symbol] is(v, Symbol) && err == nil ==> is(res, string)
+//@   ensures[time_Time] is(v, time.Time) && err == nil ==> is(res, string)
+//@   ensures[conforms] err == nil ==> res == nil || (is(res, string))
+
+//@ func (*idScalar).CoerceOut
+//@   props C05
+//@   check panic {C03}
+//@   requires recv != nil
+//@   ensures[nil] v == nil ==> res == nil && err == nil
+//@   ensures[int] is(v, int) && err == nil ==> is(res, string)
+//@   ensures[int8] is(v, int8) && err == nil ==> is(res, string)
+//@   ensures[int16] is(v, int16) && err == nil ==> is(res, string)
+//@   ensures[int32] is(v, int32) && err == nil ==> is(res, string)
+//@   ensures[int64] is(v, int64) && err == nil ==> is(res, string)
+//@   ensures[uint] is(v, uint) && err == nil ==> is(res, string)
+//@   ensures[uint8] is(v, uint8) && err == nil ==> is(res, string)
+//@   ensures[uint16] is(v, uint16) && err == nil ==> is(res, string)
+//@   ensures[uint32] is(v, uint32) && err == nil ==> is(res, string)
+//@   ensures[uint64] is(v, uint64) && err == nil ==> is(res, string)
+//@   ensures[float32] is(v, float32) && err == nil ==> is(res, string)
+//@   ensures[float64] is(v, float64) && err == nil ==> is(res, string)
+//@   ensures[bool] is(v, bool) && err == nil ==> is(res, string)
+//@   ensures[string] is(v, string) && err == nil ==> is(res, string) && as(res, string) == as(v, string)
+//@   ensures[Symbol] is(v, Symbol) && err == nil ==> is(res, string)
+//@   ensures[time_Time] is(v, time.Time) && err == nil ==> is(res, string)
+//@   ensures[conforms] err == nil ==> res == nil || (is(res, string))
+//@   ensures[err-null] err != nil ==> res == nil
+
+//@ func (*booleanScalar).CoerceIn
+//@   props C04
+//@   check panic {C03}
+//@   requires recv != nil
+//@   ensures[nil] v == nil ==> res == nil && err == nil
+//@   ensures[int] is(v, int) && err == nil ==> is(res, bool)
+//@   ensures[int8] is(v, int8) && err == nil ==> is(res, bool)
+//@   ensures[int16] is(v, int16) && err == nil ==> is(res, bool)
+//@   ensures[int32] is(v, int32) && err == nil ==> is(res, bool)
+//@   ensures[int64] is(v, int64) && err == nil ==> is(res, bool)
+//@   ensures[uint] is(v, uint) && err == nil ==> is(res, bool)
+//@   ensures[uint8] is(v, uint8) && err == nil ==> is(res, bool)
+//@   ensures[uint16] is(v, uint16) && err == nil ==> is(res, bool)
+//@   ensures[uint32] is(v, uint32) && err == nil ==> is(res, bool)
+//@   ensures[uint64] is(v, uint64) && err == nil ==> is(res, bool)
+//@   ensures[float32] is(v, float32) && err == nil ==> is(res, bool)
+//@   ensures[float64] is(v, float64) && err == nil ==> is(res, bool)
+//@   ensures[bool] is(v, bool) && err == nil ==> is(res, bool) && as(res, bool) == as(v, bool)
+//@   ensures[string] is(v, string) && err == nil ==> is(res, bool)
+//@   ensures[Symbol] is(v, Symbol) && err == nil ==> is(res, bool)
+//@   ensures[time_Time] is(v, time.Time) && err == nil ==> is(res, bool)
+//@   ensures[conforms] err == nil ==> res == nil || (is(res, bool))
+
+//@ func (*booleanScalar).CoerceOut
+//@   props C05
+//@   check panic {C03}
+//@   requires recv != nil
+//@   ensures[nil] v == nil ==> res == nil && err == nil
+//@   ensures[int] is(v, int) && err == nil ==> is(res, bool)
+//@   ensures[int8] is(v, int8) && err == nil ==> is(res, bool)
+//@   ensures[int16] is(v, int16) && err == nil ==> is(res, bool)
+//@   ensures[int32] is(v, int32) && err == nil ==> is(res, bool)
+//@   ensures[int64] is(v, int64) && err == nil ==> is(res, bool)
+//@   ensures[uint] is(v, uint) && err == nil ==> is(res, bool)
+//@   ensures[uint8] is(v, uint8) && err == nil ==> is(res, bool)
+//@   ensures[uint16] is(v, uint16) && err == nil ==> is(res, bool)
+//@   ensures[uint32] is(v, uint32) && err == nil ==> is(res, bool)
+//@   ensures[uint64] is(v, uint64) && err == nil ==> is(res, bool)
+//@   ensures[float32] is(v, float32) && err == nil ==> is(res, bool)
+//@   ensures[float64] is(v, float64) && err == nil ==> is(res, bool)
+//@   ensures[bool] is(v, bool) && err == nil ==> is(res, bool) && as(res, bool) == as(v, bool)
+//@   ensures[string] is(v, string) && err == nil ==> is(res, bool)
+//@   ensures[Symbol] is(v, Symbol) && err == nil ==> is(res, bool)
+//@   ensures[time_Time] is(v, time.Time) && err == nil ==> is(res, bool)
+//@   ensures[conforms] err == nil ==> res == nil || (is(res, bool))
+//@   ensures[err-null] err != nil ==> res == nil
+
+//@ func (*timeScalar).CoerceIn
+//@   props C04
+//@   check panic {C03}
+//@   requires recv != nil
+//@   ensures[nil] v == nil ==> res == nil && err == nil
+//@   ensures[int] is(v, int) && err == nil ==> is(res, time.Time)
+//@   ensures[int8] is(v, int8) && err == nil ==> is(res, time.Time)
+//@   ensures[int16] is(v, int16) && err == nil ==> is(res, time.Time)
+//@   ensures[int32] is(v, int32) && err == nil ==> is(res, time.Time)
+//@   ensures[int64] is(v, int64) && err == nil ==> is(res, time.Time)
+//@   ensures[uint] is(v, uint) && err == nil ==> is(res, time.Time)
+//@   ensures[uint8] is(v, uint8) && err == nil ==> is(res, time.Time)
+//@   ensures[uint16] is(v, uint16) && err == nil ==> is(res, time.Time)
+//@   ensures[uint32] is(v, uint32) && err == nil ==> is(res, time.Time)
+//@   ensures[uint64] is(v, uint64) && err == nil ==> is(res, time.Time)
+//@   ensures[float32] is(v, float32) && err == nil ==> is(res, time.Time)
+//@   ensures[float64] is(v, float64) && err == nil ==> is(res, time.Time)
+//@   ensures[bool] is(v, bool) && err == nil ==> is(res, time.Time)
+//@   ensures[string] is(v, string) && err == nil ==> is(res, time.Time)
+//@   ensures[Symbol] is(v, Symbol) && err == nil ==> is(res, time.Time)
+//@   ensures[time_Time] is(v, time.Time) && err == nil ==> is(res, time.Time)
+//@   ensures[conforms] err == nil ==> res == nil || (is(res, time.Time))
+
+//@ func (*timeScalar).CoerceOut
+//@   props C05
+//@   check panic {C03}
+//@   requires recv != nil
+//@   ensures[nil] v == nil ==> res == nil && err == nil
+//@   ensures[int] is(v, int) && err == nil ==> is(res, string)
+//@   ensures[int8] is(v, int8) && err == nil ==> is(res, string)
+//@   ensures[int16] is(v, int16) && err == nil ==> is(res, string)
+//@   ensures[int32] is(v, int32) && err == nil ==> is(res, string)
+//@   ensures[int64] is(v, int64) && err == nil ==> is(res, string)
+//@   ensures[uint] is(v, uint) && err == nil ==> is(res, string)
+//@   ensures[uint8] is(v, uint8) && err == nil ==> is(res, string)
+//@   ensures[uint16] is(v, uint16) && err == nil ==> is(res, string)
+//@   ensures[uint32] is(v, uint32) && err == nil ==> is(res, string)
+//@   ensures[uint64] is(v, uint64) && err == nil ==> is(res, string)
+//@   ensures[float32] is(v, float32) && err == nil ==> is(res, string)
+//@   ensures[float64] is(v, float64) && err == nil ==> is(res, string)
+//@   ensures[bool] is(v, bool) && err == nil ==> is(res, string)
+//@   ensures[string] is(v, string) && err == nil ==> is(res, string)
+//@   ensures[Symbol] is(v, Symbol) && err == nil ==> is(res, string)
+//@   ensures[time_Time] is(v, time.Time) && err == nil ==> is(res, string)
+//@   ensures[conforms] err == nil ==> res == nil || (is(res, string))
+//@   ensures[err-null] err != nil ==> res == nil
+
+//@ -- END generated scalar contracts
